@@ -38,15 +38,19 @@ PathCat == [
   slash   |-> [path |-> "/acc",             wallet |-> "",         m |-> {},              ok |-> FALSE]
 ]
 
-VARIABLES l, cfg, pop, bad
-vars == <<l, cfg, pop, bad>>
+VARIABLES l, cfg, pop, bad,
+          free      \* the configuration reached the program through its configuration file: entry order chosen by TLC (Perms!Orders)
+vars == <<l, cfg, pop, bad, free>>
 Ev == Trace[l]
 Is(name) == l <= Len(Trace) /\ Ev.ev = name /\ l' = l + 1
 
-Init == l = 1 /\ cfg = <<>> /\ pop = <<>> /\ bad = {} /\ TLCSet(1, 1)
-Config == Is("Config") /\ cfg' = Ev.cfg /\ UNCHANGED <<pop, bad>>
+Init == l = 1 /\ cfg = <<>> /\ pop = <<>> /\ bad = {} /\ free = FALSE /\ TLCSet(1, 1)
+Unordered(e) == "unordered" \in DOMAIN e /\ e.unordered
+Config == /\ Is("Config")
+          /\ IF Unordered(Ev) THEN cfg' \in Orders(Ev.cfg) /\ free' = TRUE ELSE cfg' = Ev.cfg /\ free' = FALSE
+          /\ UNCHANGED <<pop, bad>>
 \* pop : wallet name -> set of account names
-Population == Is("Population") /\ pop' = [w \in DOMAIN Ev.pop |-> {Ev.pop[w][i] : i \in 1 .. Len(Ev.pop[w])}] /\ UNCHANGED <<cfg, bad>>
+Population == Is("Population") /\ pop' = [w \in DOMAIN Ev.pop |-> {Ev.pop[w][i] : i \in 1 .. Len(Ev.pop[w])}] /\ UNCHANGED <<cfg, bad, free>>
 
 Accessible(client, w, a) == Decide(cfg, client, w, a, "Access account")
 Requested == {Ev.paths[i] : i \in 1 .. Len(Ev.paths)}
@@ -58,16 +62,18 @@ Lower(client) == {<<w, a>> \in UNION {{<<ww, aa>> : aa \in pop[ww]} : ww \in DOM
                     /\ Accessible(client, w, a)}
 Returned == {<<Ev.result[i].w, Ev.result[i].a>> : i \in 1 .. Len(Ev.result)}
 
+\* (for a run against the real binary the two inclusions are guards: the run is explained if ONE entry order explains all of it)
 List == /\ Is("List")
-        /\ bad' = bad \cup {<<"forbidden", l, x>> : x \in Returned \ Upper(Ev.client)}
-                      \cup {<<"missing", l, x>> : x \in Lower(Ev.client) \ Returned}
+        /\ free => (Returned \subseteq Upper(Ev.client) /\ Lower(Ev.client) \subseteq Returned)
+        /\ bad' = bad \cup (IF free THEN {} ELSE {<<"forbidden", l, x>> : x \in Returned \ Upper(Ev.client)})
+                      \cup (IF free THEN {} ELSE {<<"missing", l, x>> : x \in Lower(Ev.client) \ Returned})
                       \cup (IF Ev.keysok THEN {} ELSE {<<"key", l>>})
-        /\ UNCHANGED <<cfg, pop>>
-Other == l <= Len(Trace) /\ Ev.ev \notin {"Config", "Population", "List"} /\ l' = l + 1 /\ UNCHANGED <<cfg, pop, bad>>
+        /\ UNCHANGED <<cfg, pop, free>>
+Other == l <= Len(Trace) /\ Ev.ev \notin {"Config", "Population", "List"} /\ l' = l + 1 /\ UNCHANGED <<cfg, pop, bad, free>>
 Next == Config \/ Population \/ List \/ Other
 Spec == Init /\ [][Next]_vars
 HighWater == TLCSet(1, IF l > TLCGet(1) THEN l ELSE TLCGet(1))
-Accepted == TLCGet(1) = Len(Trace) + 1
+Accepted == IF TLCGet(1) = Len(Trace) + 1 THEN TRUE ELSE PrintT(<<"HIGHWATER", TLCGet(1)>>) /\ FALSE
 NoForbidden == \A b \in bad : b[1] # "forbidden"
 Complete == \A b \in bad : b[1] # "missing"
 OwnKey == \A b \in bad : b[1] # "key"
